@@ -638,4 +638,34 @@ example : (SeqSys.run updateLeaseOld {} exOpsOk).Monotone :=
 /-- the overflow hypothesis is not trivially true: a lease reaching `2^64` is rejected -/
 example : ¬ RunOk updateLease {} [.new 1 (2 ^ 64 - 1) .ok, .new 2 1 .ok] := by decide
 
+/-! ## `seq.lock` across Release's transaction is load-bearing -/
+
+/-- bandwidth 10, three numbers handed out, then `Release` with a `Next` slipping in between its
+    read and its write (impossible while `Release` holds `seq.lock`), then `Next` again -/
+def relUnlockedRun : SeqSys :=
+  let s := SeqSys.run updateLease {} [.new 1 10 .ok, .next 1 .ok, .next 1 .ok, .next 1 .ok]
+  SeqSys.run updateLease (s.releaseInterleavedNext 1) [.next 1 .ok]
+
+/-- if a `Next` could run between Release's read of `seq.next/seq.leased` and its write-back,
+    the number it hands out would be handed out again by the very next `Next` (and by any other
+    object or after a restart): uniqueness needs `Release` to hold `seq.lock` across its
+    transaction. With the lock the same calls are `C30_unique` (`releaseThenNext`). -/
+theorem C30_release_lock_needed : ¬ relUnlockedRun.Unique ∧ ¬ relUnlockedRun.Monotone := by
+  constructor
+  · unfold SeqSys.Unique
+    decide
+  · intro h
+    have := h 1
+    revert this
+    decide
+
+example : relUnlockedRun.handed = [(1, 0), (1, 1), (1, 2), (1, 3), (1, 3)] := by decide
+
+/-- under the lock: Release, then Next — a run of the machine, hence unique -/
+example : ((SeqSys.run updateLease {} [.new 1 10 .ok, .next 1 .ok, .next 1 .ok, .next 1 .ok]).releaseThenNext
+    updateLease 1).1.handed = [(1, 0), (1, 1), (1, 2), (1, 3)] := by decide
+
+theorem releaseThenNext_eq_run (lf : LeaseFn) (s : SeqSys) (id : Nat) :
+    (s.releaseThenNext lf id).1 = SeqSys.run lf s [.release id .ok, .next id .ok] := rfl
+
 end Badger
